@@ -160,7 +160,33 @@ def instantiate(script, st):
     return out
 
 
+def gen_probe(rng, idx):
+    """Zero-gain probe: the same prefix twice (under set_seed / on a fresh shared Generator), once followed by runs of a
+    reservoir whose gains are all 0, then a draw from the same generator: the model says the two draws coincide."""
+    st = {"nodes": 0, "gens": 0, "sks": 0, "free": []}
+    s = rng.choice(SEEDS)
+    shared = rng.random() < 0.5
+    cfg = rand_cfg(rng, seed=["freshgen", s] if shared else ["none"])
+    cfg.update(g_in=0.0, g_fb=0.0, g_rc=0.0)
+    script = own_script(rng, cfg)
+    norun = [o for o in script if o["op"] != "run"]
+    if not any(o["op"] == "init" for o in norun):
+        norun.append({"op": "init", "din": script[-1]["din"]})
+    rows, cols = rng.randint(1, 4), rng.randint(1, 4)
+    hist = []
+    for variant in (script, norun):
+        ops = instantiate(variant, st)
+        if shared:
+            g = [o["g"] for o in ops if o["op"] == "newgen"][0]
+            hist += ops + [{"op": "gendraw", "g": g, "rows": rows, "cols": cols}]
+        else:
+            hist += [{"op": "set_seed", "s": s}] + ops + [{"op": "gdraw", "rows": rows, "cols": cols}]
+    return {"index": idx, "ops": hist, "ncopies": 0, "proto_seed": ["probe"], "has_twin": False}
+
+
 def gen_history(rng, idx, sk=True):
+    if rng.random() < 0.12:
+        return gen_probe(rng, idx)
     st = {"nodes": 0, "gens": 0, "sks": 0, "free": []}   # free: generator objects the unrelated operations may use
     cfg = rand_cfg(rng)
     if cfg["seed"][0] == "none" and rng.random() < 0.7:
@@ -174,7 +200,8 @@ def gen_history(rng, idx, sk=True):
             ops = [{"op": "set_seed", "s": 3}] + ops       # an unseeded protagonist lives under a global seed
         copies.append(ops)
     if rng.random() < 0.6:     # a twin with another seed
-        s2 = rng.choice([s for s in SEEDS if cfg["seed"][0] == "none" or s != cfg["seed"][1]])
+        # (an unseeded protagonist lives under set_seed(3): its W *is* the W of Reservoir(seed=3))
+        s2 = rng.choice([s for s in SEEDS if s != (3 if cfg["seed"][0] == "none" else cfg["seed"][1])])
         kind = cfg["seed"][0] if cfg["seed"][0] != "none" else "int"
         twin = [dict(o, cfg=dict(o["cfg"], seed=[kind, s2])) if o["op"] == "construct" else o for o in script]
         copies.append(instantiate(twin, st))
@@ -373,6 +400,8 @@ def nontrivial(hist, obs):
     """>= 2 copies of the protagonist whose arrays were observed, separated by at least one operation that consumes or
     reseeds the global generator (or constructs/runs another reservoir)."""
     ops = hist["ops"]
+    if hist["proto_seed"][0] == "probe":
+        return True
     cons = [k for k, o in enumerate(ops) if o["op"] == "construct" and o["i"] < hist["ncopies"]]
     if len(cons) < 2:
         return False
@@ -430,6 +459,15 @@ def _judge_history(h):
         obs = run_history(h)
     except Exception as e:
         return _viol("history:exception", "valid history raises %r" % (e,), h)
+    if h["proto_seed"][0] == "probe":
+        draws = [hs for nd, tag, hs in obs if tag == 6]
+        ws = [hs for nd, tag, hs in obs if tag == 0]
+        if len(ws) == 2 and ws[0] != ws[1]:
+            return _viol("set_seed:W" if any(o["op"] == "set_seed" for o in h["ops"]) else "generator:W",
+                         "W of two reservoirs built after the same seeding differs", h, ws[0], ws[1])
+        if len(draws) == 2 and draws[0] != draws[1]:
+            return _viol("zero_gain:generator-touched", "runs with all gains 0 changed what the generator draws next", h, draws[1], draws[0])
+        return None
     per = {}
     for nd, tag, hs in obs:
         if nd > 0:
@@ -549,7 +587,11 @@ def oracle(ctx, scale=1):
             _junk(rng)
             g2, _ = _build(np.random.default_rng(s), **kw)
             ev += 4
+            PAR = ("W", "Win", "bias", "Wfb")
+            same_params = lambda u, v: all(u[c] == v[c] for c in PAR)
             for comp in r1:
+                if comp == "trajectory" and not (same_params(r1, r2) and same_params(g1, g2)):
+                    continue        # already reported through the differing parameter
                 if r1[comp] != r2[comp]:
                     viol.append(_viol("seeded:" + comp, "same integer seed, different %s after unrelated operations" % comp, sc, r1[comp], r2[comp]))
                 if g1[comp] != g2[comp]:
@@ -567,7 +609,7 @@ def oracle(ctx, scale=1):
                 _junk(rng)
                 b, _ = _build(s, **{which: 0.3})
                 ev += 2
-                if a["trajectory"] != b["trajectory"]:
+                if a["trajectory"] != b["trajectory"] and same_params(a, b):
                     viol.append(_viol("noise:" + which, "%s with a seed is not reproducible" % which, dict(sc, which=which), a["trajectory"], b["trajectory"]))
                 if a["trajectory"] == quiet["trajectory"]:
                     viol.append(_viol("noise:%s-ineffective" % which, "%s > 0 does not change the trajectory" % which, dict(sc, which=which)))
@@ -588,7 +630,7 @@ def oracle(ctx, scale=1):
                 ev += 1
                 if before != after:
                     viol.append(_viol("zero_gain:generator-touched", "a run with all gains 0 advanced the noise generator", dict(sc, seed_kind=seed_kind)))
-                if seed_kind == "int" and sha(outz) != quiet["trajectory"]:
+                if seed_kind == "int" and sha(outz) != quiet["trajectory"] and same_params(r1, r2):
                     viol.append(_viol("zero_gain:trajectory", "gain 0 differs from the noiseless run", sc, quiet["trajectory"], sha(outz)))
                 # the deterministic recurrence recomputed by hand
                 st = np.zeros((6, 1))
